@@ -495,6 +495,39 @@ func main() {
 	})
 	samples = append(samples, map[string]any{"planes": len(dirs) * len(offsets), "plane_resolutions": planeRes, "spheres": 3 * len(ctrs), "solids": len(solids) * len(poses), "resolutions": resB, "renderers": 2})
 
+	// ---- histories with ONE renderer value: a big sphere, then a small one, then the big one again; the
+	// lattice of every render must be the one a fresh renderer uses for that shape (added after seed C06-9:
+	// a cell size memoised in the renderer value)
+	for _, r := range renderers {
+		for _, n := range []int{8, 13, 40} {
+			rv := r.mk(n)
+			for step, R := range []float64{2, 0.25, 2} {
+				R := R
+				f := func(p v3.Vec) float64 { return p.Length() - R }
+				bb := sdf.Box3{Min: v3.Vec{X: -1.25 * R, Y: -1.25 * R, Z: -1.25 * R}, Max: v3.Vec{X: 1.25 * R, Y: 1.25 * R, Z: 1.25 * R}}
+				neutral := 1.0
+				if r.name == "octree" {
+					neutral = 0
+				}
+				l, err := lattice.Discover3(r.mk(n), bb, neutral)
+				if err != nil {
+					c.HarnessError("discover (history, n=%d, %s): %v", n, r.name, err)
+					continue
+				}
+				nx, ny, nz := l.NC()
+				ts := render.ToTriangles(boxed{f, bb}, rv)
+				states++
+				desc := map[string]any{"history": "spheres R=2, 0.25, 2 rendered with one renderer value", "render": step + 1, "meshCells": n, "renderer": r.name}
+				nvv := checkVertices(c, l, ts, func(a, b, d int) float64 { return f(l.Corner(a, b, d)) }, 2e-12, r.name+"|history-with-one-renderer-value", fmt.Sprintf("render %d of spheres R=2,0.25,2 with one %s renderer value, n=%d", step+1, r.name, n), desc)
+				nv += int64(nvv)
+				_, _, _ = nx, ny, nz
+				if len(ts) == 0 {
+					c.Violation(r.name+"|history-with-one-renderer-value|no-output", fmt.Sprintf("render %d (sphere R=%g) with a reused %s renderer value, n=%d: no triangles", step+1, R, r.name, n), desc)
+				}
+			}
+		}
+	}
+
 	// ---- completeness + volume convergence (sphere, box) ----
 	type cj struct {
 		name string
